@@ -132,8 +132,8 @@ PROPS.update({
         explanation="std's allocation entry points are replaced (-Z stubbing) by stateless versions asserting size <= allowance and delegating to Kani's allocator model, so EVERY heap request made while decoding is checked; self-tests and a negative twin prove the assertion is live; no-stub twins guard against stub artefacts.",
         assumptions=["stubs: alloc::alloc::{alloc, alloc_zeroed, realloc, realloc_nonnull} -> allowance-asserting versions delegating to __rust_alloc/__rust_alloc_zeroed/__rust_realloc"]),
     "C10": dict(runs=std_runs(10, stubbing=True),
-        bounds="[T;N] N<=4, Box<T>, Box<[T;3]>, Rc/Arc<[T;2]>, Vec (<=3), VecDeque, tuples, nested arrays, Vec of arrays, derived struct/enum, repr(transparent) newtypes (array, boxed): symbolic failing element x symbolic truncation; LinkedList/BTreeMap/BTreeSet (<=2): concrete failing index and length, enumerated; failure kinds: input exhausted, malformed element, depth-limit and mem-limit errors (symbolic limits)",
-        outside="panic in an element decoder (Kani models panic as abort: unwinding is not executed); N up to 40 (same loop body)",
+        bounds="[T;N] N<=4, Box<T>, Box<[T;3]>, Rc/Arc<[T;2]>, Vec (<=3), VecDeque, tuples, nested arrays, Vec of arrays, derived struct/enum, repr(transparent) newtypes (array, boxed): symbolic failing element x symbolic truncation; LinkedList (<=2): concrete failing index and length, enumerated; zero-sized element types with a Drop impl; a refused Box allocation is never made (allocator stubs); failure kinds: input exhausted, malformed element, depth-limit and mem-limit errors (symbolic limits)",
+        outside="panic in an element decoder (Kani models panic as abort: unwinding is not executed); N up to 40 (same loop body); BTreeMap/BTreeSet with ledger elements (std bulk build + sort with a droppable element: CBMC out of memory/time)",
         explanation="ledger element type: every construction and drop is recorded and asserted (built exactly once, dropped exactly once, nothing leaked), while CBMC checks double free / use of dead objects / dealloc layout on every pointer operation of the real decode paths (Box::decode_wrapped raw alloc, array State guard, repr(transparent) casts)."),
     "C11": simple(11,
         bounds="all byte strings up to the listed lengths x symbolic limit 0..=8 for Box/Rc/Arc nests to depth 3, Vec/VecDeque/LinkedList/BTreeMap/BTreeSet/BinaryHeap with <= 2 elements, siblings (tuple, array), recursive derived Tree (<= 6 bytes) and List; one inductive step of the real depth tracker from an ARBITRARY (depth, max) state and decode-from-any-state == fresh decode with budget max-depth (source hook)",
